@@ -51,7 +51,7 @@ reg("C13", native("mon-rt", "rt_facts"),
     "Random writes, deletes, add_command, checkpoints at command boundaries and reverts to any earlier checkpoint, including reverts that must discard writes made after the last command "
     "(a rule that wrote and then failed); every revert is followed by the full query comparison and a head_address check; the segment finally written is compared too.",
     "Linear-perspective checkpoints have command granularity by construction (index = command count), so they are taken only where the runtime takes them.", design_ref="DESIGN.md 4 (C13)")
-reg("C14", native("mon-rt", "rt_facts") + one("miri", "mon-rt", "rt_facts", scale=1, timeout=2400),
+reg("C14", native("mon-rt", "rt_facts") + one("miri", "mon-rt", "rt_facts", scale=1, timeout=2400, set={"miri_cases": "3"}),
     "overlay model (committed facts + session writes) vs queries observed inside policy calls; Miri on the yoked iterator",
     "Session actions and receives run audit-policy scripts that insert, delete (also committed facts), exact-query and fail at chosen points; after every operation a second action records prefix "
     "queries and they must equal the model in key order; failed operations leave the next observation unchanged; heads and committed facts never change. A small slice runs under Miri.",
